@@ -27,7 +27,7 @@ META = {
         "real": ["Grammar.parse / parse_forest / parse_multiple", "Parser (forest cache)", "IterativeParser", "Fandango.parse (API, constraint filtering)", "Fandango.fuzz bursts (generator / repair parses)", "spec front end"],
         "stub": [],
     },
-    "expected_probes": ["abandoned_forest", "first_tree_then_forest", "repeat_same_key", "mutated_returned_tree", "controlflow_request", "prefix_mode_request", "ambiguous_word", "fuzz_burst", "other_start_symbol", "api_parse"],
+    "expected_probes": ["request_aborted_by_exception", "abandoned_forest", "first_tree_then_forest", "repeat_same_key", "mutated_returned_tree", "controlflow_request", "prefix_mode_request", "ambiguous_word", "fuzz_burst", "other_start_symbol", "api_parse"],
     "bounds": {"requests": "4..14", "word_symbols": "<= 20", "forest": "<= 60 trees consumed"},
     "assumptions": ["reference = the same request on a pristine spec object of the same text (parser soundness is C04, not claimed)"],
 }
@@ -66,6 +66,40 @@ def _add_ambiguity(ch, g: G.Gram):
             break
     if not done[0]:
         del g.rules[twin]
+
+
+class InjectedFault(Exception):
+    """An exception thrown into the product at a scheduler-chosen call (a MemoryError /
+    RecursionError / interrupt stand-in): the library's crash point."""
+
+
+def _with_fault_at_call(k: int, fn):
+    """Run fn(); raise InjectedFault at the k-th function call made inside fandango's parser
+    package.  Returns ("ok", result) | ("fault", None) | ("exc", repr)."""
+    import sys
+
+    count = [0]
+
+    def tracer(frame, event, arg):
+        if event == "call":
+            fnm = frame.f_code.co_filename
+            if "/fandango/language/grammar/parser/" in fnm:
+                count[0] += 1
+                if count[0] == k:
+                    raise InjectedFault("injected at call %d (%s)" % (k, frame.f_code.co_name))
+        return None
+
+    old = sys.gettrace()
+    sys.settrace(tracer)
+    try:
+        try:
+            return ("ok", fn())
+        except InjectedFault:
+            return ("fault", None)
+        except Exception as e:  # the product turned the fault into something else
+            return ("exc", "%s: %s" % (type(e).__name__, str(e)[:80]))
+    finally:
+        sys.settrace(old)
 
 
 def _collect(gen, limit=MAX_TREES):
@@ -150,7 +184,7 @@ def run(run: Run) -> None:
     returned: list = []  # trees handed out by earlier requests (for mutation)
     ref_cache: dict = {}  # request -> result on a pristine spec object (a pure function of the request)
     for i in range(n_req):
-        op = ch.weighted([4, 4, 3, 2, 2, 2, 1], "sched", "op")
+        op = ch.weighted([4, 4, 3, 2, 2, 2, 1, 2], "sched", "op")
         word, start = ch.pick(pool, "sched", "word")
         incomplete = ch.coin(0.25, "sched", "prefix-mode")
         cf = ch.coin(0.15, "sched", "controlflow")
@@ -173,6 +207,26 @@ def run(run: Run) -> None:
             run.op("#%d abandon forest(%r,<%s>,%s,cf=%s) after %d tree(s)" % (i, word, start, "INCOMPLETE" if incomplete else "COMPLETE", cf, len(got)))
             hazard_keys.add(key)
             prev_kind = "abandon"
+            continue
+        if op == 7:
+            # ---- an exception is thrown into the parser in the middle of a request ---------
+            k = 1 + ch.draw(400, "fault", "fault-at-call")
+            kind = ch.pick(["forest", "first"], "sched", "fault-kind")
+            mode = ParsingMode.INCOMPLETE if incomplete else ParsingMode.COMPLETE
+
+            def faulty():
+                if kind == "first":
+                    return f.grammar.parse(word, "<%s>" % start, mode=mode, include_controlflow=cf)
+                return _collect(f.grammar.parse_forest(word, "<%s>" % start, mode=mode, include_controlflow=cf))
+
+            outcome = _with_fault_at_call(k, faulty)
+            run.event("injected-exception", kind, k, outcome[0])
+            run.op("#%d %s(%r,<%s>,%s,cf=%s) with an exception injected at parser call %d -> %s" % (i, kind, word, start, "INCOMPLETE" if incomplete else "COMPLETE", cf, k, outcome[0]))
+            if outcome[0] == "fault":
+                run.fault("exception_inside_parser")
+                run.probe("request_aborted_by_exception")
+                hazard_keys.add(key)
+                prev_kind = "fault"
             continue
         if op == 5:
             # ---- the caller edits a tree it was handed ------------------------------------
@@ -273,7 +327,7 @@ def run(run: Run) -> None:
                 if cf and len(got) == 0 and want:
                     cause = "controlflow-request-after-cached-forest-empty"
                 elif sub and len(got) < len(want) and key in hazard_keys and not mutated:
-                    cause = "truncated-forest-after-partial-consumption"
+                    cause = "truncated-forest-after-" + ("aborted-request" if any("exception injected" in o and "-> fault" in o for o in run.ops) and not any("abandon forest" in o for o in run.ops) else "partial-consumption")
                 elif mutated:
                     cause = "after-caller-mutated-returned-tree"
                 else:
